@@ -436,5 +436,7 @@ fn main() {
     // every operator trait impl of the tree (inventory from the rustdoc JSON): reference, assign and
     // scalar forms agree with the by-value form decided above
     harness::opforms::run(&mut rep, "affine", harness::opforms::OPFORMS_AFFINE);
+    // the matrix family as well: `Product` is composition (A*B)*... in the column-vector convention
+    harness::opforms::run(&mut rep, "mat", harness::opforms::OPFORMS_MAT);
     std::process::exit(rep.finish());
 }
